@@ -46,6 +46,11 @@ def _target(ic: Any, c: str, params: str, with_kwargs: bool = False) -> Tuple[st
     raise ValueError(c)
 
 
+ERROR_EXPRS = {"error_int": "3", "error_str": "'oops'", "error_nonexc_class": "int",
+               "error_callable_object": "functools.partial(ValueError, 'x')", "error_empty_str": "''", "error_zero": "0",
+               "error_empty_list": "[]", "error_false": "False"}
+
+
 def observe_misuse(ic: Any, cell: dict) -> Tuple[str, str]:
     """Run the misuse of the cell; return (moment, exception class) or ("never", "")."""
     m, d, c = cell["m"], cell["d"], cell["c"]
@@ -99,8 +104,7 @@ def observe_misuse(ic: Any, cell: dict) -> Tuple[str, str]:
             elif m in ("kw_result", "kw_OLD"):
                 params, call_args = "x=1, **kwargs", "{}=1".format(m.split("_")[1])
             elif m.startswith("error_"):
-                err = {"error_int": "3", "error_str": "'oops'", "error_nonexc_class": "int",
-                       "error_callable_object": "functools.partial(ValueError, 'x')"}[m]
+                err = ERROR_EXPRS[m]
                 deco_expr = "icontract.{}({}, error={})".format(d, cond, err)
             deco = create(deco_expr)
             moment[0] = "decorate"
@@ -129,8 +133,7 @@ def observe_misuse(ic: Any, cell: dict) -> Tuple[str, str]:
                 ns["acond"] = _make_async_cond()
                 expr = "icontract.invariant(acond)"
             else:
-                err = {"error_int": "3", "error_str": "'oops'", "error_nonexc_class": "int",
-                       "error_callable_object": "functools.partial(ValueError, 'x')"}[m]
+                err = ERROR_EXPRS[m]
                 expr = "icontract.invariant(lambda self: True, error={})".format(err)
             deco = create(expr)
             moment[0] = "decorate"
@@ -144,6 +147,10 @@ def observe_misuse(ic: Any, cell: dict) -> Tuple[str, str]:
                 deco_expr = "icontract.snapshot(lambda: 1)"
             elif m == "capture_noname_2":
                 deco_expr = "icontract.snapshot(lambda x, y: 1)"
+            elif m == "capture_noname_default":
+                deco_expr = "icontract.snapshot(lambda x, y=2: 1)"
+            elif m == "capture_noname_kwdefault":
+                deco_expr = "icontract.snapshot(lambda x, *, y=2: 1)"
             else:
                 deco_expr = "icontract.snapshot(lambda x: x, name='s')"
             deco = create(deco_expr)
